@@ -68,6 +68,12 @@ def type_named_like_module(case):
     return False
 
 
+def type_named_like_builtin(case):
+    """known finding K07: a built-in name is emitted unqualified (`u8`); in a module that itself defines a type of that name
+    rustc binds it to the module's own struct instead of the primitive"""
+    return any(d["name"] in BUILTIN for m in case["input"]["mods"] for d in m["defs"])
+
+
 def run_c13(tier):
     res = Result("C13", tier)
     cov = {"states": 0, "transitions": 0, "traces_validated_against_impl": 0, "tlc": [], "checker_cmd": ""}
@@ -110,6 +116,8 @@ def run_c13(tier):
                 kf = [k for k in case["oracle"].get("kf", []) if k.startswith("C13:")]
                 if not kf and packed_embeds_struct(case) and all("E0588" in p_ for p_ in problems):
                     kf = ["C13:packed-embeds-struct"]
+                if not kf and type_named_like_builtin(case) and all(("E0072" in p_ or "E0308" in p_ or "E0512" in p_) for p_ in problems):
+                    kf = ["C13:type-named-like-builtin"]
                 if not kf and type_named_like_module(case) and all("E0428" in p_ for p_ in problems):
                     kf = ["C13:type-named-like-module"]
                 res.violation("; ".join(problems[:2]), payload(case, obs), kf[0] if kf else None)
